@@ -337,3 +337,8 @@ def run(repo: Repo, rep: Report, tier: str) -> None:
                 rep.check(a8 == b8, "C08-R8", f"{f8.short}: relay node and placement share one position", a8[:80] if a8 == b8 else
                           f"node registered at `{a8[:60]}`, pole placed at `{b8[:60]}`: hops are measured from a point up to several tiles away from the pole and can exceed the wire reach", f8.loc(r8))
     rep.floor("C08-R8", "relay registration/placement pairs", n8, 1)
+
+    # ---------------- R9 ---------------------------------------------------------------
+    from .shared import borrow as _borrow8
+    _borrow8(repo, rep, "C12", "C12-R2", "C08-R9", "a wire of one network never ends on a pole that carries another: every relay that is handed out for a hop — reused or new — is "
+             "booked for the network before the hop is used", floor=4)
